@@ -27,9 +27,15 @@ func c17Judge(sc *WF, tr []Ev) (fp, msg string) {
 		}
 		name := fmt.Sprintf("L%d.v%d(style=%05b)", seg[0].Leaf, seg[0].Visit, l.Style)
 		prep := seg[0]
-		var lastRes *Ev
+		var lastRes, needPost *Ev
 		for i := 1; i < len(seg); i++ {
 			e := &seg[i]
+			// "the result the exec function returns - ... its error state when it is an error result -
+			// is what the post function receives": an error Result returned with a nil Go error is
+			// the exec outcome, so the next thing that happens to this node is its post function
+			if needPost != nil && e.Phase != "post" {
+				return "C17:error-result-not-delivered", fmt.Sprintf("%s: exec returned an error Result (nil error) carrying %q; instead of handing it to the post function the node went on with %s", name, needPost.RetResErr, e)
+			}
 			switch e.Phase {
 			case "exec":
 				if !samePayload(e.In, prep.Ret) {
@@ -42,9 +48,13 @@ func c17Judge(sc *WF, tr []Ev) (fp, msg string) {
 					return "C17:prep-wrapped-twice", fmt.Sprintf("%s: exec function received a Result wrapped in a Result", name)
 				}
 				lastRes = e
+				if e.RetResErr != nil && e.RetErr == nil {
+					needPost = e
+				}
 			case "fb":
 				lastRes = e
 			case "post":
+				needPost = nil
 				if !samePayload(e.In, prep.Ret) {
 					return "C17:prep-to-post", fmt.Sprintf("%s: post function received prep value %#v, prep function returned %#v", name, e.In, prep.Ret)
 				}
@@ -85,6 +95,9 @@ func c17Judge(sc *WF, tr []Ev) (fp, msg string) {
 					return "C17:exec-to-post", fmt.Sprintf("%s: post function received %#v, the exec phase produced %#v", name, e.In2, lastRes.Ret)
 				}
 			}
+		}
+		if needPost != nil {
+			return "C17:error-result-not-delivered", fmt.Sprintf("%s: exec returned an error Result (nil error) carrying %q, but the post function was never called with it: %v", name, needPost.RetResErr, traceStrings(seg))
 		}
 	}
 	return "", ""
